@@ -86,6 +86,16 @@ def get_chunk_dtype_transformer(input_dtype, output_dtype, warn=True):
                 np.rint(chunk, out=chunk)
             if clip_values:
                 np.clip(chunk, output_min, output_max, out=chunk)
+                if (np.issubdtype(work_dtype, np.floating)
+                        and float(output_max) > output_max):
+                    # The maximum of a 64-bit integer type is rounded up by
+                    # the conversion to floating point, so values clipped to
+                    # it would overflow (wrap) in the final cast.
+                    overflow = chunk >= float(output_max)
+                    chunk[overflow] = 0
+                    result = chunk.astype(output_dtype, casting="unsafe")
+                    result[overflow] = output_max
+                    return result
         return chunk.astype(output_dtype, casting="unsafe")
 
     return chunk_transformer
